@@ -1,7 +1,7 @@
 (* C07 -- Every block the node produces is one every node accepts.
    Statements only; proofs in proofs/ProducerProofs.v, model in model/Producer.v
-   (= /repo HEAD 6a5c788 incl. the fixes f62222f, e0300b2, 1214e31, 9879695, ffb4da9, 6b3137c,
-   60ba6d1, b8552b5, bb88717, f640126, e1b5241, df3ca14, 6a5c788).
+   (= /repo HEAD 9007b23 incl. the fixes f62222f, e0300b2, 1214e31, 9879695, ffb4da9, 6b3137c,
+   60ba6d1, b8552b5, bb88717, f640126, e1b5241, df3ca14, 6a5c788, 716c212).
 
    Block::create / Mempool::bundle_block / Mempool::can_bundle_block and Block::validate are
    modelled as written; the economic part of generate_consensus_values is the abstract
@@ -10,16 +10,15 @@
    has left out pooled transactions that collide with a rebroadcast), in validate on the
    finished block (rebroadcast and fee transactions appended, header filled).
 
-   FULL STATEMENT (false on the code as it is -- see C07_produced_validates_refuted_issuance,
-   a recorded run of the real code):
+   FULL STATEMENT:
        forall pool golden-ticket timestamp chain,
          bundle ... = Ok (Bundled b, _) -> node_accepts n b = Ok true /\ node_accepts n2 b = Ok true
-   What is proved: the same for every production outside the decidable class [Known_C07]
-   (the one finding still listed in known_findings.txt under property=C07: an Issuance-typed
-   transaction in the pool), under the structural side conditions spelled out in
-   C07_bundle_produced_validates.  Every hypothesis of that theorem is the listed class, an
-   obligation on [cv], or the pool invariant that C07_pool_stays_young / C07_intake_keeps_young
-   establish.  The classes fixed in /repo since the first round stay as *_regression Examples. *)
+   No finding is listed for C07 any more (known_findings.txt): there is no excluded class.
+   C07_bundle_produced_validates proves the statement under side conditions each of which is an
+   obligation on [cv] (measured on every produced block by the harness), the supply equation
+   (C02), or an invariant of the pool that C07_pool_stays_young / C07_intake_keeps_young
+   establish.  The classes found and fixed in /repo stay as *_regression Examples (recorded runs
+   of the real code at this HEAD). *)
 From Saito Require Import Base Producer ProducerProofs.
 
 Section C07.
@@ -38,7 +37,7 @@ Section C07.
   Notation node_accepts := (node_accepts chain view cv tx_valid gt_ok work_needed supply_ok mroot).
   Notation bundle := (bundle chain view cv tx_valid gt_ok work_needed hchain mroot).
   Notation can_bundle := (can_bundle chain view work_needed).
-  Notation intake := (add_transaction_if_validates chain tx_valid).
+  Notation intake := (add_transaction_if_validates chain view tx_valid).
   Notation screen := (screen_ticket chain view gt_ok).
   Notation tip_hash := (tip_hash_of chain view).
 
@@ -111,29 +110,6 @@ Section C07.
     validate dbg n true b = Ok true.
   Proof. exact (produced_validates_F chain view cv tx_valid gt_ok work_needed hchain mroot). Qed.
 
-  (* the same as "forall x, ~ Known_C07 x -> P x": the one listed class is an Issuance-typed
-     transaction in the pool *)
-  Theorem C07_produced_validates_outside_known : forall dbg (n : node chain) creator ts gt drained b p,
-    v_tip (view (n_chain _ n)) = Some p ->
-    create dbg n creator ts gt drained = Ok b ->
-    Known_C07 drained = false ->
-    let c0 := cv (n_chain _ n) (n_ledger _ n) (pre_block (Some p) (par_hash p) creator ts gt drained) in
-    let kept := kept_pool c0 drained in
-    let cC := cv (n_chain _ n) (n_ledger _ n) (pre_block (Some p) (par_hash p) creator ts gt kept) in
-    let cV := cv (n_chain _ n) (n_ledger _ n) b in
-    agreesb dbg hchain cC cV = true ->
-    cv_types_ok cC = true ->
-    (c_fee_tx cC <> None -> gt <> None) ->
-    (forall g, gt = Some g -> is_type TGoldenTicket g = true /\ gt_ok (n_chain _ n) g = true) ->
-    pool_types_ok drained = true ->
-    kept <> [] ->
-    (v_stake_req (view (n_chain _ n)) = 0 \/ count_type TBlockStake kept = 1) ->
-    forallb (tx_valid (n_chain _ n) (n_ledger _ n)) (b_txs b) = true ->
-    work_needed (par_burnfee p) ts (par_ts p) (v_heartbeat (view (n_chain _ n)))
-      <= nsum (map t_work (opt_list gt ++ kept)) ->
-    validate dbg n true b = Ok true.
-  Proof. exact (produced_validates_outside_known chain view cv tx_valid gt_ok work_needed hchain mroot). Qed.
-
   (* Block::create = the plain steps (no filter) on the pool that is left *)
   Theorem C07_create_filters : forall dbg (n : node chain) creator ts gt d p,
     v_tip (view (n_chain _ n)) = Some p ->
@@ -160,7 +136,9 @@ Section C07.
      e0300b2, 6a5c788) and none about what Block::create leaves out: the pool is young -- every
      pooled input can still be spent in block [next] -- which the intake (bb88717) and the
      re-validation after every block addition (df3ca14) maintain (C07_pool_stays_young), and a young
-     pool collides with no rebroadcast.  [key_block k] = the block id inside utxoset key k. *)
+     pool collides with no rebroadcast.  The pool before the call holds no GoldenTicket/Fee/ATR-typed
+     transaction (intake) and no Issuance-typed one (intake on a running chain, 716c212: the second
+     half of C07_pool_stays_young's invariant).  [key_block k] = the block id inside utxoset key k. *)
   Theorem C07_bundle_produced_validates : forall (key_block : N -> N) gp next dbg (n : node chain) creator m ts gt stake order b m' p,
     v_tip (view (n_chain _ n)) = Some p ->
     bundle dbg n creator m ts gt stake order = Ok (Bundled b, m') ->
@@ -177,8 +155,8 @@ Section C07.
     cv_types_ok cC = true ->
     (c_fee_tx cC <> None -> gt' <> None) ->
     (forall g, gt = Some g -> is_type TGoldenTicket g = true) ->
-    pool_types_ok (m_txs m1) = true ->
-    count_type TIssuance (m_txs m1) = 0 ->
+    pool_types_ok (m_txs m) = true ->
+    count_type TIssuance (m_txs m) = 0 ->
     (v_stake_req (view (n_chain _ n)) = 0 \/ count_type TBlockStake (m_txs m1) = 1) ->
     forallb (tx_valid (n_chain _ n) (n_ledger _ n)) (b_txs b) = true ->
     m_work m <= nsum (map t_work (m_txs m)) ->
@@ -256,7 +234,7 @@ Section C07.
     young_pool key_block gp next (m_txs m) = true ->
     intake dbg n m t = Ok m1 ->
     young_pool key_block gp next (m_txs m1) = true.
-  Proof. exact (intake_keeps_young chain tx_valid). Qed.
+  Proof. exact (intake_keeps_young chain view tx_valid). Qed.
 
   (* so from a young pool the left-out branch of Block::create is dead;
      the other half of the invariant (the tip moves) is C07_pool_stays_young *)
@@ -273,23 +251,33 @@ Section C07.
   Proof. exact (young_pool_nothing_left_out chain view cv tx_valid gt_ok work_needed supply_ok hchain mroot). Qed.
 
   (* the invariant over the life of the pool ([next_of] = id of the next block of a chain): from a
-     young pool, every sequence of arrivals (intake on the current node state), tip moves (ANY new
-     node state; re-validation of fix df3ca14) and shrinkings (a bundle drained the pool, create handed
-     part of it back) ends in a young pool -- provided no ATR / Issuance-typed transaction is pooled *)
+     young pool without ATR / Issuance-typed transactions on a running chain, every sequence of
+     arrivals (ANY transaction, through the intake on the current node state), tip moves (ANY new
+     node state with a running chain; re-validation of fix df3ca14) and shrinkings (a bundle
+     drained the pool, create handed part of it back) ends in such a pool *)
   Theorem C07_pool_stays_young : forall (key_block : N -> N) gp (next_of : chain -> N),
     (forall (n : node chain) x, tx_valid (n_chain _ n) (n_ledger _ n) x = true ->
                                 young_tx key_block gp (next_of (n_chain _ n)) x = true) ->
     forall dbg evs st st',
-    forallb (fun e => negb (arrives_exempt chain e)) evs = true ->
+    forallb (tip_started chain view) evs = true ->
+    started chain view st = true ->
     PoolInv chain key_block gp next_of st ->
-    prun chain tx_valid key_block gp next_of dbg st evs = Ok st' ->
-    PoolInv chain key_block gp next_of st'.
-  Proof. exact (pool_stays_young chain tx_valid). Qed.
+    prun chain view tx_valid key_block gp next_of dbg st evs = Ok st' ->
+    PoolInv chain key_block gp next_of st' /\ started chain view st' = true.
+  Proof. exact (pool_stays_young chain view tx_valid). Qed.
+
+  (* the intake on a running chain (fix 716c212): an Issuance-typed transaction is not pooled *)
+  Theorem C07_issuance_refused : forall dbg (n : node chain) m t m1,
+    v_blocks_empty (view (n_chain _ n)) = false ->
+    intake dbg n m t = Ok m1 ->
+    (m_txs m1 = m_txs m \/ (m_txs m1 = t :: m_txs m /\ pool_tx_ok t = true /\ is_type TIssuance t = false))
+    /\ m_gts m1 = m_gts m.
+  Proof. exact (issuance_refused chain view tx_valid). Qed.
 
   (* ---- staking transactions of other keys are not pooled (fix 9879695) ---- *)
   Theorem C07_foreign_stake_refused : forall dbg (n : node chain) m t,
     is_type TBlockStake t = true -> t_own t = false -> intake dbg n m t = Ok m.
-  Proof. exact (foreign_stake_refused chain tx_valid). Qed.
+  Proof. exact (foreign_stake_refused chain view tx_valid). Qed.
 
   (* ---- timestamps (fix f62222f) ---- *)
   Theorem C07_bundle_ts_declines : forall dbg (n : node chain) creator m ts gt stake order p,
@@ -335,56 +323,61 @@ End C07.
    that round. *)
 Definition wn0 : N -> N -> N -> N -> N := fun _ _ _ _ => 0.
 
-(* cap: {"label": "dust-profile", "tip": 5, "gap_ms": 25000, "pool_ops": [{"op": "transfer", "payer": 2, "input": "5:2:1 amount 613335", "fee": 20000, "hops": 1, "pooled": true}, {"op": "transfer", "payer": 3, "input": "5:4:0 amount 606669", "fee": 20000, "hops": 1, "pooled": true}, {"op": "transfer", "payer": 4, "input": "5:1:0 amount 600003", "fee": 20000, "hops": 1, "pooled": true}, {"op": "transfer", "payer": 5, "input": "5:3:0 amount 593337", "fee": 20000, "hops": 1, "pooled": true}], "pool_size": 4, "cached_work": 80000, "work_needed": 0, "gt_for_tip": false, "outcome": "Accepted", "detail": "block 6 txs(types) [0, 0, 0, 0, 3] producer OnChain second node OnChain; atr multiplier 3; diffs []; create-vs-validate cv []"} *)
+(* cap: {"label": "dust-profile", "tip": 5, "gap_ms": 25000, "pool_ops": [{"op": "transfer", "payer": 2, "input": "5:2:1 amount 613335", "fee": 20000, "hops": 1, "pooled": true}, {"op": "transfer", "payer": 3, "input": "5:3:0 amount 606669", "fee": 20000, "hops": 1, "pooled": true}, {"op": "transfer", "payer": 4, "input": "5:4:0 amount 600003", "fee": 20000, "hops": 1, "pooled": true}, {"op": "transfer", "payer": 5, "input": "5:1:0 amount 593337", "fee": 20000, "hops": 1, "pooled": true}], "pool_size": 4, "cached_work": 80000, "work_needed": 0, "gt_for_tip": false, "outcome": "Accepted", "detail": "block 6 txs(types) [0, 0, 0, 0, 3] producer OnChain second node OnChain; atr multiplier 3; diffs []; create-vs-validate cv []"} *)
 Definition wit_cap : rcase :=
-  mkRC (mkView (Some (mkPar 65 5 1100000 40000 2 96428 12649111 false)) false 0 10000 676 true true) (mkM [(mkTx 69 70 TNormal 20000 [71] 0 0 false); (mkTx 72 73 TNormal 20000 [74] 0 0 false); (mkTx 75 76 TNormal 20000 [77] 0 0 false); (mkTx 78 79 TNormal 20000 [80] 0 0 false)] [71; 74; 77; 80] 80000 true true []) 18 1125000 (Some (mkTx 14 15 TBlockStake 0 [] 0 0 true)) [76; 79; 70; 73] 81 (mkCv (mkE 80000 80000 0 80000 73115 69464 3651 0 0 0 0 0 21728 12840 0 0 0 44 56 112540 8000000 0) [(mkTx 82 9 TATR 0 [83] 1 0 false)] 1 84 None) (mkCv (mkE 80000 80000 0 80000 73115 69464 3651 0 0 0 0 0 21728 12840 0 0 0 44 56 112540 8000000 0) [(mkTx 82 9 TATR 0 [83] 1 0 false)] 1 84 None) [(69, true); (72, true); (75, true); (78, true); (14, false); (82, true)] [] [(71, 5); (74, 5); (77, 5); (80, 5); (83, 2)] 3 [([82], 84); ([], 0)] [([75; 78; 69; 72; 82], 85)] true [[4]; [75; 78; 69; 72; 82]; [6; 1125000; 65; 96428; 40000; 2]; [80000; 80000; 0; 80000; 73115; 69464; 3651; 0; 0; 0; 0; 0; 21728; 12840; 0; 0; 0; 44; 56; 112540; 8000000; 0]; [80000; 1; 84; 85]; [1; 1]; []; [0; 0]; []].
+  mkRC (mkView (Some (mkPar 65 5 1100000 40000 2 96428 12649111 false)) false 0 10000 2562 true true) (mkM [(mkTx 69 70 TNormal 20000 [71] 0 0 false); (mkTx 72 73 TNormal 20000 [74] 0 0 false); (mkTx 75 76 TNormal 20000 [77] 0 0 false); (mkTx 78 79 TNormal 20000 [80] 0 0 false)] [71; 74; 77; 80] 80000 true true []) 18 1125000 (Some (mkTx 14 15 TBlockStake 0 [] 0 0 true)) [79; 76; 73; 70] 81 (mkCv (mkE 80000 80000 0 80000 73115 69464 3651 0 0 0 0 0 21728 12840 0 0 0 44 56 112540 8000000 0) [(mkTx 82 9 TATR 0 [83] 1 0 false)] 1 84 None) (mkCv (mkE 80000 80000 0 80000 73115 69464 3651 0 0 0 0 0 21728 12840 0 0 0 44 56 112540 8000000 0) [(mkTx 82 9 TATR 0 [83] 1 0 false)] 1 84 None) [(69, true); (72, true); (75, true); (78, true); (14, false); (82, true)] [] [(71, 5); (74, 5); (77, 5); (80, 5); (83, 2)] 3 [([82], 84); ([], 0)] [([78; 75; 72; 69; 82], 85)] true [[4]; [78; 75; 72; 69; 82]; [6; 1125000; 65; 96428; 40000; 2]; [80000; 80000; 0; 80000; 73115; 69464; 3651; 0; 0; 0; 0; 0; 21728; 12840; 0; 0; 0; 44; 56; 112540; 8000000; 0]; [80000; 1; 84; 85]; [1; 1]; []; [0; 0]; []].
 
 (* gt: {"label": "invalid-golden-ticket", "tip": 4, "gap_ms": 25000, "pool_ops": [{"op": "transfer", "payer": 2, "input": "1:9:0 amount 401002", "fee": 5000, "hops": 1, "pooled": true}, {"op": "transfer", "payer": 3, "input": "3:2:0 amount 401703", "fee": 300, "hops": 2, "pooled": true}, {"op": "transfer", "payer": 4, "input": "1:29:0 amount 405004", "fee": 0, "hops": 0, "pooled": true}, {"op": "golden-ticket", "kind": "Invalid", "tip_difficulty": 2}], "pool_size": 3, "cached_work": 5150, "work_needed": 0, "gt_for_tip": true, "outcome": "Accepted", "detail": "block 5 txs(types) [0, 0, 0] producer OnChain second node OnChain; atr multiplier 1; diffs []; create-vs-validate cv []"} *)
 Definition wit_gt : rcase :=
-  mkRC (mkView (Some (mkPar 46 4 1075000 0 2120 5300 20000000 false)) false 0 10000 3412 true true) (mkM [(mkTx 50 51 TNormal 0 [52] 0 0 false); (mkTx 53 54 TNormal 150 [55] 0 0 false); (mkTx 56 57 TNormal 5000 [58] 0 0 false)] [52; 55; 58] 5150 true true [(46, mkTx 59 60 TGoldenTicket 0 [] 0 46 true)]) 19 1100000 (Some (mkTx 13 14 TBlockStake 0 [] 0 0 true)) [51; 54; 57] 61 (mkCv (mkE 5300 5300 0 5300 3128 3128 0 0 0 0 0 0 628 628 0 0 0 1 5 0 12649111 2) [] 0 0 None) (mkCv (mkE 5300 5300 0 5300 3128 3128 0 0 0 0 0 0 628 628 0 0 0 1 5 0 12649111 2) [] 0 0 None) [(50, true); (53, true); (56, true); (13, false)] [(59, false)] [(52, 1); (55, 3); (58, 1)] 5 [([], 0)] [([50; 53; 56], 62)] true [[4]; [50; 53; 56]; [5; 1100000; 46; 5300; 0; 2120]; [5300; 5300; 0; 5300; 3128; 3128; 0; 0; 0; 0; 0; 0; 628; 628; 0; 0; 0; 1; 5; 0; 12649111; 2]; [5150; 0; 0; 62]; [1; 1]; []; [0; 0]; []].
+  mkRC (mkView (Some (mkPar 46 4 1075000 0 2120 5300 20000000 false)) false 0 10000 3519 true true) (mkM [(mkTx 50 51 TNormal 0 [52] 0 0 false); (mkTx 53 54 TNormal 150 [55] 0 0 false); (mkTx 56 57 TNormal 5000 [58] 0 0 false)] [52; 55; 58] 5150 true true [(46, mkTx 59 60 TGoldenTicket 0 [] 0 46 true)]) 19 1100000 (Some (mkTx 13 14 TBlockStake 0 [] 0 0 true)) [57; 51; 54] 61 (mkCv (mkE 5300 5300 0 5300 3128 3128 0 0 0 0 0 0 628 628 0 0 0 1 5 0 12649111 2) [] 0 0 None) (mkCv (mkE 5300 5300 0 5300 3128 3128 0 0 0 0 0 0 628 628 0 0 0 1 5 0 12649111 2) [] 0 0 None) [(50, true); (53, true); (56, true); (13, false)] [(59, false)] [(52, 1); (55, 3); (58, 1)] 5 [([], 0)] [([56; 50; 53], 62)] true [[4]; [56; 50; 53]; [5; 1100000; 46; 5300; 0; 2120]; [5300; 5300; 0; 5300; 3128; 3128; 0; 0; 0; 0; 0; 0; 628; 628; 0; 0; 0; 1; 5; 0; 12649111; 2]; [5150; 0; 0; 62]; [1; 1]; []; [0; 0]; []].
 
-(* issuance: {"label": "issuance", "tip": 3, "gap_ms": 25000, "pool_ops": [{"op": "transfer", "payer": 2, "input": "1:14:0 amount 406002", "fee": 5000, "hops": 1, "pooled": true}, {"op": "transfer", "payer": 3, "input": "1:20:0 amount 404003", "fee": 300, "hops": 2, "pooled": true}, {"op": "transfer", "payer": 4, "input": "2:0:0 amount 404004", "fee": 0, "hops": 0, "pooled": true}, {"op": "issuance-typed", "pooled": true}], "pool_size": 4, "cached_work": 5150, "work_needed": 0, "gt_for_tip": false, "outcome": "Rejected", "detail": "block 4 txs(types) [6, 0, 0, 0] producer Invalid second node Invalid; atr multiplier 1; diffs []; create-vs-validate cv []"} *)
+(* issuance: {"label": "issuance", "tip": 3, "gap_ms": 25000, "pool_ops": [{"op": "transfer", "payer": 2, "input": "1:14:0 amount 406002", "fee": 5000, "hops": 1, "pooled": true}, {"op": "transfer", "payer": 3, "input": "1:20:0 amount 404003", "fee": 300, "hops": 2, "pooled": true}, {"op": "transfer", "payer": 4, "input": "2:2:0 amount 404004", "fee": 0, "hops": 0, "pooled": true}, {"op": "issuance-typed", "pooled": false}], "pool_size": 3, "cached_work": 5150, "work_needed": 0, "gt_for_tip": false, "outcome": "Accepted", "detail": "block 4 txs(types) [0, 0, 0] producer OnChain second node OnChain; atr multiplier 1; diffs []; create-vs-validate cv []"} *)
 Definition wit_issuance : rcase :=
-  mkRC (mkView (Some (mkPar 27 3 1050000 0 2120 5300 31622777 false)) false 0 10000 4699 true true) (mkM [(mkTx 31 32 TNormal 150 [33] 0 0 false); (mkTx 34 35 TNormal 0 [36] 0 0 false); (mkTx 37 38 TNormal 5000 [39] 0 0 false); (mkTx 40 41 TIssuance 0 [] 0 0 true)] [33; 36; 39] 5150 true true []) 15 1075000 (Some (mkTx 11 12 TBlockStake 0 [] 0 0 true)) [41; 38; 35; 32] 42 (mkCv (mkE 5300 5300 0 5300 2586 2586 0 0 0 0 0 0 255 255 0 0 0 1 5 0 20000000 0) [] 0 0 None) (mkCv (mkE 5300 5300 0 5300 2586 2586 0 0 0 0 0 0 255 255 0 0 0 1 5 0 20000000 0) [] 0 0 None) [(31, true); (34, true); (37, true); (40, true); (11, false)] [] [(33, 1); (36, 2); (39, 1)] 5 [([], 0)] [([40; 37; 34; 31], 43)] true [[4]; [40; 37; 34; 31]; [4; 1075000; 27; 5300; 0; 2120]; [5300; 5300; 0; 5300; 2586; 2586; 0; 0; 0; 0; 0; 0; 255; 255; 0; 0; 0; 1; 5; 0; 20000000; 0]; [5150; 0; 0; 43]; [0; 0]; [32; 35; 38]; [5150; 1]; []].
+  mkRC (mkView (Some (mkPar 27 3 1050000 0 2120 5300 31622777 false)) false 0 10000 4868 true true) (mkM [(mkTx 31 32 TNormal 150 [33] 0 0 false); (mkTx 34 35 TNormal 0 [36] 0 0 false); (mkTx 37 38 TNormal 5000 [39] 0 0 false)] [33; 36; 39] 5150 true true []) 15 1075000 (Some (mkTx 11 12 TBlockStake 0 [] 0 0 true)) [35; 38; 32] 40 (mkCv (mkE 5300 5300 0 5300 2586 2586 0 0 0 0 0 0 255 255 0 0 0 1 5 0 20000000 0) [] 0 0 None) (mkCv (mkE 5300 5300 0 5300 2586 2586 0 0 0 0 0 0 255 255 0 0 0 1 5 0 20000000 0) [] 0 0 None) [(31, true); (34, true); (37, true); (11, false)] [] [(33, 1); (36, 2); (39, 1)] 5 [([], 0)] [([34; 37; 31], 41)] true [[4]; [34; 37; 31]; [4; 1075000; 27; 5300; 0; 2120]; [5300; 5300; 0; 5300; 2586; 2586; 0; 0; 0; 0; 0; 0; 255; 255; 0; 0; 0; 1; 5; 0; 20000000; 0]; [5150; 0; 0; 41]; [1; 1]; []; [0; 0]; []].
 
-(* stake: {"label": "foreign-stake", "tip": 3, "gap_ms": 25000, "pool_ops": [{"op": "transfer", "payer": 2, "input": "1:14:0 amount 406002", "fee": 5000, "hops": 1, "pooled": true}, {"op": "transfer", "payer": 3, "input": "1:20:0 amount 404003", "fee": 300, "hops": 2, "pooled": true}, {"op": "transfer", "payer": 4, "input": "2:0:0 amount 404004", "fee": 0, "hops": 0, "pooled": true}, {"op": "blockstake-typed-from-peer", "payer": 5, "pooled": false}], "pool_size": 3, "cached_work": 5150, "work_needed": 0, "gt_for_tip": false, "outcome": "Accepted", "detail": "block 4 txs(types) [0, 0, 7, 0] producer OnChain second node OnChain; atr multiplier 1; diffs []; create-vs-validate cv []"} *)
+(* stake: {"label": "foreign-stake", "tip": 3, "gap_ms": 25000, "pool_ops": [{"op": "transfer", "payer": 2, "input": "1:14:0 amount 406002", "fee": 5000, "hops": 1, "pooled": true}, {"op": "transfer", "payer": 3, "input": "1:20:0 amount 404003", "fee": 300, "hops": 2, "pooled": true}, {"op": "transfer", "payer": 4, "input": "2:3:0 amount 404004", "fee": 0, "hops": 0, "pooled": true}, {"op": "blockstake-typed-from-peer", "payer": 5, "pooled": false}], "pool_size": 3, "cached_work": 5150, "work_needed": 0, "gt_for_tip": false, "outcome": "Accepted", "detail": "block 4 txs(types) [0, 7, 0, 0] producer OnChain second node OnChain; atr multiplier 1; diffs []; create-vs-validate cv []"} *)
 Definition wit_stake : rcase :=
-  mkRC (mkView (Some (mkPar 31 3 1050000 0 2120 5300 31622777 false)) false 50000 10000 372 true true) (mkM [(mkTx 35 36 TNormal 150 [37] 0 0 false); (mkTx 38 39 TNormal 0 [40] 0 0 false); (mkTx 41 42 TNormal 5000 [43] 0 0 false)] [37; 40; 43] 5150 true true []) 16 1075000 (Some (mkTx 44 45 TBlockStake 0 [46] 0 0 true)) [36; 39; 45; 42] 47 (mkCv (mkE 5300 5300 0 5300 2586 2586 0 0 0 0 0 0 255 255 0 0 0 0 4 0 20000000 0) [] 0 0 None) (mkCv (mkE 5300 5300 0 5300 2586 2586 0 0 0 0 0 0 255 255 0 0 0 0 4 0 20000000 0) [] 0 0 None) [(35, true); (38, true); (41, true); (44, true)] [] [(37, 1); (40, 2); (43, 1); (46, 1)] 5 [([], 0)] [([35; 38; 44; 41], 48)] true [[4]; [35; 38; 44; 41]; [4; 1075000; 31; 5300; 0; 2120]; [5300; 5300; 0; 5300; 2586; 2586; 0; 0; 0; 0; 0; 0; 255; 255; 0; 0; 0; 0; 4; 0; 20000000; 0]; [5150; 0; 0; 48]; [1; 1]; []; [0; 0]; []].
+  mkRC (mkView (Some (mkPar 31 3 1050000 0 2120 5300 31622777 false)) false 50000 10000 2807 true true) (mkM [(mkTx 35 36 TNormal 150 [37] 0 0 false); (mkTx 38 39 TNormal 0 [40] 0 0 false); (mkTx 41 42 TNormal 5000 [43] 0 0 false)] [37; 40; 43] 5150 true true []) 16 1075000 (Some (mkTx 44 45 TBlockStake 0 [46] 0 0 true)) [36; 45; 42; 39] 47 (mkCv (mkE 5300 5300 0 5300 2586 2586 0 0 0 0 0 0 255 255 0 0 0 0 4 0 20000000 0) [] 0 0 None) (mkCv (mkE 5300 5300 0 5300 2586 2586 0 0 0 0 0 0 255 255 0 0 0 0 4 0 20000000 0) [] 0 0 None) [(35, true); (38, true); (41, true); (44, true)] [] [(37, 1); (40, 2); (43, 1); (46, 1)] 5 [([], 0)] [([35; 44; 41; 38], 48)] true [[4]; [35; 44; 41; 38]; [4; 1075000; 31; 5300; 0; 2120]; [5300; 5300; 0; 5300; 2586; 2586; 0; 0; 0; 0; 0; 0; 255; 255; 0; 0; 0; 0; 4; 0; 20000000; 0]; [5150; 0; 0; 48]; [1; 1]; []; [0; 0]; []].
 
-(* ts: {"label": "timestamp-order", "tip": 3, "gap_ms": 0, "pool_ops": [{"op": "transfer", "payer": 2, "input": "1:14:0 amount 406002", "fee": 5000, "hops": 1, "pooled": true}, {"op": "transfer", "payer": 3, "input": "1:20:0 amount 404003", "fee": 300, "hops": 2, "pooled": true}, {"op": "transfer", "payer": 4, "input": "2:1:0 amount 404004", "fee": 0, "hops": 0, "pooled": true}], "pool_size": 3, "cached_work": 5150, "work_needed": 10000000000000000000, "gt_for_tip": false, "outcome": "GateClosed", "detail": ""} *)
+(* ts: {"label": "timestamp-order", "tip": 3, "gap_ms": 0, "pool_ops": [{"op": "transfer", "payer": 2, "input": "1:14:0 amount 406002", "fee": 5000, "hops": 1, "pooled": true}, {"op": "transfer", "payer": 3, "input": "1:20:0 amount 404003", "fee": 300, "hops": 2, "pooled": true}, {"op": "transfer", "payer": 4, "input": "2:0:0 amount 404004", "fee": 0, "hops": 0, "pooled": true}], "pool_size": 3, "cached_work": 5150, "work_needed": 10000000000000000000, "gt_for_tip": false, "outcome": "GateClosed", "detail": ""} *)
 Definition wit_ts : rcase :=
-  mkRC (mkView (Some (mkPar 27 3 1050000 0 2120 5300 31622777 false)) false 0 10000 3659 true true) (mkM [(mkTx 31 32 TNormal 150 [33] 0 0 false); (mkTx 34 35 TNormal 0 [36] 0 0 false); (mkTx 37 38 TNormal 5000 [39] 0 0 false)] [33; 36; 39] 5150 true true []) 15 1050000 (Some (mkTx 11 12 TBlockStake 0 [] 0 0 true)) [32; 35; 38; 12] 0 (mkCv econ0 [] 0 0 None) (mkCv econ0 [] 0 0 None) [(31, true); (34, true); (37, true); (11, false)] [] [(33, 1); (36, 2); (39, 1)] 5 [([], 0)] [] true [[1]; [32; 35; 38]; [5150; 1]; []].
+  mkRC (mkView (Some (mkPar 27 3 1050000 0 2120 5300 31622777 false)) false 0 10000 4699 true true) (mkM [(mkTx 31 32 TNormal 150 [33] 0 0 false); (mkTx 34 35 TNormal 0 [36] 0 0 false); (mkTx 37 38 TNormal 5000 [39] 0 0 false)] [33; 36; 39] 5150 true true []) 15 1050000 (Some (mkTx 11 12 TBlockStake 0 [] 0 0 true)) [32; 35; 38; 12] 0 (mkCv econ0 [] 0 0 None) (mkCv econ0 [] 0 0 None) [(31, true); (34, true); (37, true); (11, false)] [] [(33, 1); (36, 2); (39, 1)] 5 [([], 0)] [] true [[1]; [32; 35; 38]; [5150; 1]; []].
 
 (* aged: {"label": "pooled-dust-input-ages", "tip": 8, "gap_ms": 25000, "pool_ops": [{"op": "transfer", "payer": 2, "input": "5:15:0 amount 396682", "fee": 20000, "hops": 1, "pooled": true}, {"op": "transfer", "payer": 3, "input": "5:20:0 amount 396683", "fee": 20000, "hops": 1, "pooled": true}, {"op": "transfer", "payer": 4, "input": "5:25:0 amount 396684", "fee": 20000, "hops": 1, "pooled": true}, {"op": "transfer-creating-a-60-nolan-output", "payer": 5, "pooled": true}, {"op": "spend-oldest-spendable-output", "payer": 5, "input": "5:4:0 amount 60", "fee": 10, "pooled": true}, {"op": "peer-block", "own_transactions_only": true, "txs": 1, "producer": "OnChain", "second": "OnChain", "pool_after": 0, "cached_work_after": 0}], "pool_size": 0, "cached_work": 0, "work_needed": 0, "gt_for_tip": false, "outcome": "GateClosed", "detail": ""} *)
 Definition wit_aged : rcase :=
-  mkRC (mkView (Some (mkPar 201 8 1175000 154480 114482 82878 3200000 false)) false 0 10000 1988 true true) (mkM [] [] 0 true true []) 18 1200000 (Some (mkTx 14 15 TBlockStake 0 [] 0 0 true)) [15] 0 (mkCv econ0 [] 0 0 None) (mkCv econ0 [] 0 0 None) [(14, false)] [] [] 3 [([], 0)] [] true [[1]; []; [0; 1]; []].
+  mkRC (mkView (Some (mkPar 201 8 1175000 154480 114482 82878 3200000 false)) false 0 10000 551 true true) (mkM [] [] 0 true true []) 18 1200000 (Some (mkTx 14 15 TBlockStake 0 [] 0 0 true)) [15] 0 (mkCv econ0 [] 0 0 None) (mkCv econ0 [] 0 0 None) [(14, false)] [] [] 3 [([], 0)] [] true [[1]; []; [0; 1]; []].
 
 (* leftout: {"label": "pooled-input-ages-and-is-left-out", "tip": 9, "gap_ms": 25000, "pool_ops": [{"op": "spend-oldest-spendable-output", "payer": 2, "input": "6:0:0 amount 400992", "fee": 7000, "pooled": true}, {"op": "transfer", "payer": 4, "input": "8:3:0 amount 405700", "fee": 300, "hops": 1, "pooled": true}, {"op": "peer-block", "own_transactions_only": true, "txs": 1, "producer": "OnChain", "second": "OnChain", "pool_after": 1, "cached_work_after": 300}], "pool_size": 1, "cached_work": 300, "work_needed": 0, "gt_for_tip": false, "outcome": "Accepted", "detail": "block 10 txs(types) [0, 3] producer OnChain second node OnChain; atr multiplier 1; diffs []; create-vs-validate cv []"} *)
 Definition wit_leftout : rcase :=
-  mkRC (mkView (Some (mkPar 185 9 1200000 3467 16630 24730 2023858 false)) false 0 10000 2674 true true) (mkM [(mkTx 186 187 TNormal 300 [188] 0 0 false)] [188] 300 true true []) 15 1225000 (Some (mkTx 11 12 TBlockStake 0 [] 0 0 true)) [187] 189 (mkCv (mkE 722 300 422 722 7910 1478 6433 0 0 0 6242 0 522 284 0 2080 0 2 0 7117421 1280000 0) [(mkTx 190 191 TATR 0 [192] 1 0 false)] 1 193 None) (mkCv (mkE 722 300 422 722 7910 1478 6433 0 0 0 6242 0 522 284 0 2080 0 2 0 7117421 1280000 0) [(mkTx 190 191 TATR 0 [192] 1 0 false)] 1 193 None) [(186, true); (11, false); (190, true)] [] [(188, 8); (192, 6)] 3 [([190], 193); ([], 0)] [([186; 190], 194)] true [[4]; [186; 190]; [10; 1225000; 185; 24730; 3467; 22872]; [722; 300; 422; 722; 7910; 1478; 6433; 0; 0; 0; 6242; 0; 522; 284; 0; 2080; 0; 2; 0; 7117421; 1280000; 0]; [300; 1; 193; 194]; [1; 1]; []; [0; 0]; []].
+  mkRC (mkView (Some (mkPar 185 9 1200000 3467 16630 24730 2023858 false)) false 0 10000 3524 true true) (mkM [(mkTx 186 187 TNormal 300 [188] 0 0 false)] [188] 300 true true []) 15 1225000 (Some (mkTx 11 12 TBlockStake 0 [] 0 0 true)) [187] 189 (mkCv (mkE 722 300 422 722 7910 1478 6433 0 0 0 6242 0 522 284 0 2080 0 2 0 7117421 1280000 0) [(mkTx 190 191 TATR 0 [192] 1 0 false)] 1 193 None) (mkCv (mkE 722 300 422 722 7910 1478 6433 0 0 0 6242 0 522 284 0 2080 0 2 0 7117421 1280000 0) [(mkTx 190 191 TATR 0 [192] 1 0 false)] 1 193 None) [(186, true); (11, false); (190, true)] [] [(188, 8); (192, 6)] 3 [([190], 193); ([], 0)] [([186; 190], 194)] true [[4]; [186; 190]; [10; 1225000; 185; 24730; 3467; 22872]; [722; 300; 422; 722; 7910; 1478; 6433; 0; 0; 0; 6242; 0; 522; 284; 0; 2080; 0; 2; 0; 7117421; 1280000; 0]; [300; 1; 193; 194]; [1; 1]; []; [0; 0]; []].
 
-(* zerogt: {"label": "zero-key-ticket", "tip": 4, "gap_ms": 25000, "pool_ops": [{"op": "transfer", "payer": 2, "input": "1:9:0 amount 401002", "fee": 5000, "hops": 1, "pooled": true}, {"op": "transfer", "payer": 3, "input": "3:3:0 amount 401703", "fee": 300, "hops": 2, "pooled": true}, {"op": "transfer", "payer": 4, "input": "1:29:0 amount 405004", "fee": 0, "hops": 0, "pooled": true}, {"op": "golden-ticket", "kind": "ZeroKey", "tip_difficulty": 0}], "pool_size": 3, "cached_work": 5150, "work_needed": 0, "gt_for_tip": true, "outcome": "Accepted", "detail": "block 5 txs(types) [0, 0, 0] producer OnChain second node OnChain; atr multiplier 1; diffs []; create-vs-validate cv []"} *)
+(* zerogt: {"label": "zero-key-ticket", "tip": 4, "gap_ms": 25000, "pool_ops": [{"op": "transfer", "payer": 2, "input": "1:9:0 amount 401002", "fee": 5000, "hops": 1, "pooled": true}, {"op": "transfer", "payer": 3, "input": "3:2:0 amount 401703", "fee": 300, "hops": 2, "pooled": true}, {"op": "transfer", "payer": 4, "input": "1:29:0 amount 405004", "fee": 0, "hops": 0, "pooled": true}, {"op": "golden-ticket", "kind": "ZeroKey", "tip_difficulty": 0}], "pool_size": 3, "cached_work": 5150, "work_needed": 0, "gt_for_tip": true, "outcome": "Accepted", "detail": "block 5 txs(types) [0, 0, 0] producer OnChain second node OnChain; atr multiplier 1; diffs []; create-vs-validate cv []"} *)
 Definition wit_zerogt : rcase :=
-  mkRC (mkView (Some (mkPar 40 4 1075000 0 2120 5300 20000000 false)) false 0 10000 4511 true true) (mkM [(mkTx 42 43 TNormal 0 [44] 0 0 false); (mkTx 45 46 TNormal 150 [47] 0 0 false); (mkTx 48 49 TNormal 5000 [50] 0 0 false)] [44; 47; 50] 5150 true true [(40, mkTx 51 52 TGoldenTicket 0 [] 0 40 true)]) 15 1100000 (Some (mkTx 11 12 TBlockStake 0 [] 0 0 true)) [43; 46; 49] 53 (mkCv (mkE 5300 5300 0 5300 3128 3128 0 0 0 0 5300 0 204 204 0 1060 0 1 5 0 12649111 0) [] 0 0 None) (mkCv (mkE 5300 5300 0 5300 3128 3128 0 0 0 0 5300 0 204 204 0 1060 0 1 5 0 12649111 0) [] 0 0 None) [(42, true); (45, true); (48, true); (11, false)] [(51, false)] [(44, 1); (47, 3); (50, 1)] 5 [([], 0)] [([42; 45; 48], 54)] true [[4]; [42; 45; 48]; [5; 1100000; 40; 5300; 0; 7420]; [5300; 5300; 0; 5300; 3128; 3128; 0; 0; 0; 0; 5300; 0; 204; 204; 0; 1060; 0; 1; 5; 0; 12649111; 0]; [5150; 0; 0; 54]; [1; 1]; []; [0; 0]; []].
+  mkRC (mkView (Some (mkPar 40 4 1075000 0 2120 5300 20000000 false)) false 0 10000 387 true true) (mkM [(mkTx 42 43 TNormal 0 [44] 0 0 false); (mkTx 45 46 TNormal 150 [47] 0 0 false); (mkTx 48 49 TNormal 5000 [50] 0 0 false)] [44; 47; 50] 5150 true true [(40, mkTx 51 52 TGoldenTicket 0 [] 0 40 true)]) 15 1100000 (Some (mkTx 11 12 TBlockStake 0 [] 0 0 true)) [43; 49; 46] 53 (mkCv (mkE 5300 5300 0 5300 3128 3128 0 0 0 0 5300 0 204 204 0 1060 0 1 5 0 12649111 0) [] 0 0 None) (mkCv (mkE 5300 5300 0 5300 3128 3128 0 0 0 0 5300 0 204 204 0 1060 0 1 5 0 12649111 0) [] 0 0 None) [(42, true); (45, true); (48, true); (11, false)] [(51, false)] [(44, 1); (47, 3); (50, 1)] 5 [([], 0)] [([42; 48; 45], 54)] true [[4]; [42; 48; 45]; [5; 1100000; 40; 5300; 0; 7420]; [5300; 5300; 0; 5300; 3128; 3128; 0; 0; 0; 0; 5300; 0; 204; 204; 0; 1060; 0; 1; 5; 0; 12649111; 0]; [5150; 0; 0; 54]; [1; 1]; []; [0; 0]; []].
 
-(* injaged: {"label": "aged-spend-injected", "tip": 5, "gap_ms": 25000, "pool_ops": [{"op": "transfer", "payer": 2, "input": "5:1:0 amount 393002", "fee": 5000, "hops": 1, "pooled": true}, {"op": "transfer", "payer": 3, "input": "5:17:0 amount 399699", "fee": 300, "hops": 2, "pooled": true}, {"op": "transfer", "payer": 4, "input": "5:23:0 amount 401700", "fee": 0, "hops": 0, "pooled": true}, {"op": "spend-of-output-due-for-rebroadcast-injected-into-Mempool.transactions", "input": "2:1:0 amount 399002"}], "pool_size": 4, "cached_work": 5150, "work_needed": 0, "gt_for_tip": false, "outcome": "Accepted", "detail": "block 6 txs(types) [0, 0, 0, 3, 3] producer OnChain second node OnChain; atr multiplier 1; diffs []; create-vs-validate cv []"} *)
+(* injaged: {"label": "aged-spend-injected", "tip": 5, "gap_ms": 25000, "pool_ops": [{"op": "transfer", "payer": 2, "input": "5:3:0 amount 393002", "fee": 5000, "hops": 1, "pooled": true}, {"op": "transfer", "payer": 3, "input": "5:17:0 amount 399699", "fee": 300, "hops": 2, "pooled": true}, {"op": "transfer", "payer": 4, "input": "5:23:0 amount 401700", "fee": 0, "hops": 0, "pooled": true}, {"op": "spend-of-output-due-for-rebroadcast-injected-into-Mempool.transactions", "input": "2:2:0 amount 399002"}], "pool_size": 4, "cached_work": 5150, "work_needed": 0, "gt_for_tip": false, "outcome": "Accepted", "detail": "block 6 txs(types) [0, 0, 0, 3, 3] producer OnChain second node OnChain; atr multiplier 1; diffs []; create-vs-validate cv []"} *)
 Definition wit_injaged : rcase :=
-  mkRC (mkView (Some (mkPar 53 5 1100000 2650 2 15028 12649111 false)) false 0 10000 75 true true) (mkM [(mkTx 154 155 TNormal 900 [156] 0 0 false); (mkTx 157 158 TNormal 0 [159] 0 0 false); (mkTx 160 161 TNormal 150 [162] 0 0 false); (mkTx 163 164 TNormal 5000 [165] 0 0 false)] [156; 159; 162; 165] 5150 true true []) 15 1125000 (Some (mkTx 11 12 TBlockStake 0 [] 0 0 true)) [161; 164; 158] 166 (mkCv (mkE 6924 5300 1624 6924 7305 4601 2703 0 0 0 0 0 1440 851 0 0 0 3 5 5975483 8000000 0) [(mkTx 167 6 TATR 0 [156] 1 0 false); (mkTx 168 3 TATR 0 [169] 1 0 false)] 2 170 None) (mkCv (mkE 6924 5300 1624 6924 7305 4601 2703 0 0 0 0 0 1440 851 0 0 0 3 5 5975483 8000000 0) [(mkTx 167 6 TATR 0 [156] 1 0 false); (mkTx 168 3 TATR 0 [169] 1 0 false)] 2 170 None) [(154, false); (157, true); (160, true); (163, true); (11, false); (167, true); (168, true)] [] [(156, 2); (159, 5); (162, 5); (165, 5); (169, 2)] 3 [([167; 168], 170); ([], 0)] [([160; 163; 157; 167; 168], 171)] true [[4]; [160; 163; 157; 167; 168]; [6; 1125000; 53; 15028; 2650; 2]; [6924; 5300; 1624; 6924; 7305; 4601; 2703; 0; 0; 0; 0; 0; 1440; 851; 0; 0; 0; 3; 5; 5975483; 8000000; 0]; [5150; 2; 170; 171]; [1; 1]; []; [0; 0]; []].
+  mkRC (mkView (Some (mkPar 53 5 1100000 2650 2 15028 12649111 false)) false 0 10000 1148 true true) (mkM [(mkTx 154 155 TNormal 900 [156] 0 0 false); (mkTx 157 158 TNormal 0 [159] 0 0 false); (mkTx 160 161 TNormal 150 [162] 0 0 false); (mkTx 163 164 TNormal 5000 [165] 0 0 false)] [156; 159; 162; 165] 5150 true true []) 15 1125000 (Some (mkTx 11 12 TBlockStake 0 [] 0 0 true)) [161; 164; 158] 166 (mkCv (mkE 6924 5300 1624 6924 7305 4601 2703 0 0 0 0 0 1440 851 0 0 0 3 5 5975483 8000000 0) [(mkTx 167 3 TATR 0 [168] 1 0 false); (mkTx 169 6 TATR 0 [156] 1 0 false)] 2 170 None) (mkCv (mkE 6924 5300 1624 6924 7305 4601 2703 0 0 0 0 0 1440 851 0 0 0 3 5 5975483 8000000 0) [(mkTx 167 3 TATR 0 [168] 1 0 false); (mkTx 169 6 TATR 0 [156] 1 0 false)] 2 170 None) [(154, false); (157, true); (160, true); (163, true); (11, false); (167, true); (169, true)] [] [(156, 2); (159, 5); (162, 5); (165, 5); (168, 2)] 3 [([167; 169], 170); ([], 0)] [([160; 163; 157; 167; 169], 171)] true [[4]; [160; 163; 157; 167; 169]; [6; 1125000; 53; 15028; 2650; 2]; [6924; 5300; 1624; 6924; 7305; 4601; 2703; 0; 0; 0; 0; 0; 1440; 851; 0; 0; 0; 3; 5; 5975483; 8000000; 0]; [5150; 2; 170; 171]; [1; 1]; []; [0; 0]; []].
 
-(* ok: {"label": "work-gated", "tip": 10, "gap_ms": 10000, "pool_ops": [{"op": "transfer", "payer": 2, "input": "10:9:0 amount 402002", "fee": 5000, "hops": 1, "pooled": true}, {"op": "transfer", "payer": 3, "input": "9:3:0 amount 406403", "fee": 300, "hops": 2, "pooled": true}, {"op": "transfer", "payer": 4, "input": "10:17:0 amount 407004", "fee": 0, "hops": 0, "pooled": true}, {"op": "golden-ticket", "kind": "Valid", "tip_difficulty": 0}], "pool_size": 3, "cached_work": 5150, "work_needed": 2000, "gt_for_tip": true, "outcome": "Accepted", "detail": "block 11 txs(types) [2, 0, 0, 0, 7, 3, 1] producer OnChain second node OnChain; atr multiplier 1; diffs []; create-vs-validate cv []"} *)
+(* ok: {"label": "work-gated", "tip": 10, "gap_ms": 10000, "pool_ops": [{"op": "transfer", "payer": 2, "input": "10:9:0 amount 402002", "fee": 5000, "hops": 1, "pooled": true}, {"op": "transfer", "payer": 3, "input": "9:2:0 amount 406403", "fee": 300, "hops": 2, "pooled": true}, {"op": "transfer", "payer": 4, "input": "10:17:0 amount 407004", "fee": 0, "hops": 0, "pooled": true}, {"op": "golden-ticket", "kind": "Valid", "tip_difficulty": 0}], "pool_size": 3, "cached_work": 5150, "work_needed": 2000, "gt_for_tip": true, "outcome": "Accepted", "detail": "block 11 txs(types) [2, 0, 0, 0, 7, 3, 1] producer OnChain second node OnChain; atr multiplier 1; diffs []; create-vs-validate cv []"} *)
 Definition wit_ok : rcase :=
-  mkRC (mkView (Some (mkPar 135 10 1124998 7922 3426 5300 20001000 false)) false 50000 10000 393 true true) (mkM [(mkTx 222 223 TNormal 5000 [224] 0 0 false); (mkTx 225 226 TNormal 150 [227] 0 0 false); (mkTx 228 229 TNormal 0 [230] 0 0 false)] [224; 227; 230] 5150 true true [(135, mkTx 231 232 TGoldenTicket 0 [] 0 135 true)]) 16 1134998 (Some (mkTx 76 77 TBlockStake 0 [233] 0 0 true)) [229; 226; 223; 77] 234 (mkCv (mkE 5300 5300 0 5300 3903 3903 0 5300 2650 2650 0 0 1895 969 331 0 0 0 3 2044189 20001000 0) [(mkTx 235 12 TATR 0 [236] 1 0 true)] 1 239 (Some (mkTx 237 0 TFee 0 [] 0 0 true))) (mkCv (mkE 5300 5300 0 5300 3903 3903 0 5300 2650 2650 0 0 1895 969 331 0 0 0 3 2044189 20001000 0) [(mkTx 235 12 TATR 0 [236] 1 0 true)] 1 239 (Some (mkTx 237 0 TFee 0 [] 0 0 true))) [(222, true); (225, true); (228, true); (76, true); (231, true); (235, true); (237, true)] [(231, true)] [(224, 10); (227, 9); (230, 10); (233, 7); (236, 2)] 8 [([235], 239); ([], 0)] [([231; 228; 225; 222; 76; 235; 237], 240)] true [[4]; [231; 228; 225; 222; 76; 235; 237]; [11; 1134998; 135; 0; 10572; 3426]; [5300; 5300; 0; 5300; 3903; 3903; 0; 5300; 2650; 2650; 0; 0; 1895; 969; 331; 0; 0; 0; 3; 2044189; 20001000; 0]; [5150; 1; 239; 240]; [1; 1]; []; [0; 0]; []].
+  mkRC (mkView (Some (mkPar 135 10 1124998 7922 3426 5300 20001000 false)) false 50000 10000 2645 true true) (mkM [(mkTx 222 223 TNormal 5000 [224] 0 0 false); (mkTx 225 226 TNormal 150 [227] 0 0 false); (mkTx 228 229 TNormal 0 [230] 0 0 false)] [224; 227; 230] 5150 true true [(135, mkTx 231 232 TGoldenTicket 0 [] 0 135 true)]) 16 1134998 (Some (mkTx 76 77 TBlockStake 0 [233] 0 0 true)) [223; 226; 229; 77] 234 (mkCv (mkE 5300 5300 0 5300 3903 3903 0 5300 2650 2650 0 0 1895 969 331 0 0 0 3 2044189 20001000 0) [(mkTx 235 12 TATR 0 [236] 1 0 true)] 1 239 (Some (mkTx 237 0 TFee 0 [] 0 0 true))) (mkCv (mkE 5300 5300 0 5300 3903 3903 0 5300 2650 2650 0 0 1895 969 331 0 0 0 3 2044189 20001000 0) [(mkTx 235 12 TATR 0 [236] 1 0 true)] 1 239 (Some (mkTx 237 0 TFee 0 [] 0 0 true))) [(222, true); (225, true); (228, true); (76, true); (231, true); (235, true); (237, true)] [(231, true)] [(224, 10); (227, 9); (230, 10); (233, 7); (236, 2)] 8 [([235], 239); ([], 0)] [([231; 222; 225; 228; 76; 235; 237], 240)] true [[4]; [231; 222; 225; 228; 76; 235; 237]; [11; 1134998; 135; 0; 10572; 3426]; [5300; 5300; 0; 5300; 3903; 3903; 0; 5300; 2650; 2650; 0; 0; 1895; 969; 331; 0; 0; 0; 3; 2044189; 20001000; 0]; [5150; 1; 239; 240]; [1; 1]; []; [0; 0]; []].
 
 
 Definition next_of (c : rcase) : N := match v_tip (rc_view c) with Some p => par_id p + 1 | None => 1 end.
 
-(* STILL REFUTED.  Issuance-typed transaction in the pool *)
-Example C07_produced_validates_refuted_issuance : exists b,
-  rc_created wit_issuance = Ok b
-  /\ rc_known wit_issuance = true
-  /\ rc_accepts wn0 wit_issuance b = Ok false
+(* REGRESSION (fix 716c212; was C07_produced_validates_refuted_issuance).  A peer sent an
+   Issuance-typed transaction on a running chain: the intake did not pool it, the block is built
+   from the three transfers and accepted by both nodes; the model's intake refuses such a
+   transaction on the recorded node state whatever Transaction::validate says *)
+Example C07_issuance_regression : exists b,
+  count_type TIssuance (m_txs (rc_pool wit_issuance)) = 0
+  /\ add_transaction_if_validates unit (rc_viewf wit_issuance) (fun _ _ _ => true) true rc_node (rc_pool wit_issuance)
+       (mkTx 900001 900002 TIssuance 0 [] 0 0 false) = Ok (rc_pool wit_issuance)
+  /\ rc_created wit_issuance = Ok b
+  /\ rc_accepts wn0 wit_issuance b = Ok true
   /\ run_rcase wn0 wit_issuance = rc_expected wit_issuance.
-Proof. eexists. split; [vm_compute; reflexivity|]. repeat split; vm_compute; reflexivity. Qed.
+Proof. eexists. split; [vm_compute; reflexivity|]. split; [vm_compute; reflexivity|]. split; [vm_compute; reflexivity|]. split; vm_compute; reflexivity. Qed.
 
 (* REGRESSION (fix df3ca14; was C07_pool_not_young_refuted_left_out / _invalid_tx).  A transaction was
    pooled while its input could still be spent in the next block, then another producer's block moved
@@ -396,7 +389,6 @@ Example C07_aged_input_regression : exists b,
   /\ rebroadcasts_due (rc_key_blockf wit_leftout) (rc_gp wit_leftout) (next_of wit_leftout) (rc_cvC wit_leftout) = true
   /\ rc_created wit_leftout = Ok b
   /\ Nlen (b_txs (fst (rc_pre wit_leftout))) = Nlen (rc_drained wit_leftout)
-  /\ rc_known wit_leftout = false
   /\ rc_accepts wn0 wit_leftout b = Ok true
   /\ run_rcase wn0 wit_leftout = rc_expected wit_leftout.
 Proof. eexists. split; [vm_compute; discriminate|]. split; [vm_compute; reflexivity|]. split; [vm_compute; reflexivity|]. split; [vm_compute; reflexivity|]. repeat split; vm_compute; reflexivity. Qed.
@@ -439,7 +431,6 @@ Example C07_payout_cap_regression : exists b,
   rc_created wit_cap = Ok b
   /\ c_rebroadcasts (rc_cvC wit_cap) <> []
   /\ agreesb true (lookup_l (rc_hchain wit_cap)) (rc_cvC wit_cap) (rc_cvV wit_cap) = true
-  /\ rc_known wit_cap = false
   /\ rc_accepts wn0 wit_cap b = Ok true
   /\ run_rcase wn0 wit_cap = rc_expected wit_cap.
 Proof. eexists. split; [vm_compute; reflexivity|]. repeat split; try (vm_compute; reflexivity). vm_compute. discriminate. Qed.
@@ -459,7 +450,6 @@ Example C07_foreign_stake_regression : exists b,
   rc_created wit_stake = Ok b
   /\ v_stake_req (rc_view wit_stake) <> 0
   /\ count_type TBlockStake (b_txs b) = 1
-  /\ rc_known wit_stake = false
   /\ rc_accepts wn0 wit_stake b = Ok true
   /\ run_rcase wn0 wit_stake = rc_expected wit_stake.
 Proof. eexists. split; [vm_compute; reflexivity|]. repeat split; try (vm_compute; reflexivity). vm_compute. discriminate. Qed.
@@ -472,13 +462,12 @@ Example C07_timestamp_declined_witness :
 Proof. repeat split; vm_compute; try reflexivity; discriminate. Qed.
 
 (* non-vacuity: a recorded round (golden ticket, staking transaction, three transfers,
-   rebroadcasts, fee transaction; staking on, window wrapped) that is outside Known_C07,
+   rebroadcasts, fee transaction; staking on, window wrapped) that
    meets the structural hypotheses, and is accepted by both nodes *)
 Definition wn_ok : N -> N -> N -> N -> N := fun _ _ _ _ => 2000.
 Example C07_example : exists b p,
   v_tip (rc_view wit_ok) = Some p
   /\ rc_created wit_ok = Ok b
-  /\ rc_known wit_ok = false
   /\ agreesb true (lookup_l (rc_hchain wit_ok)) (rc_cvC wit_ok) (rc_cvV wit_ok) = true
   /\ cv_types_ok (rc_cvC wit_ok) = true
   /\ is_some (c_fee_tx (rc_cvC wit_ok)) = true /\ is_some (rc_gt wit_ok) = true
@@ -513,13 +502,11 @@ Example C07_gate_needs_honest_cache :
   let nd := mkNode unit tt [] in
   can_bundle unit vw wn nd m 1100 false = Some 60
   /\ exists b, create unit vw cvf h0 h0 true nd 3 1100 None [t] = Ok b
-       /\ Known_C07 [t] = false
        /\ validate unit vw cvf valid gtf wn h0 true nd true b = Ok false.
-Proof. cbv zeta. split; [vm_compute; reflexivity|]. eexists. split; [vm_compute; reflexivity|]. split; vm_compute; reflexivity. Qed.
+Proof. cbv zeta. split; [vm_compute; reflexivity|]. eexists. split; [vm_compute; reflexivity|]. vm_compute. reflexivity. Qed.
 
 Print Assumptions C07_agrees_fields.
 Print Assumptions C07_produced_validates.
-Print Assumptions C07_produced_validates_outside_known.
 Print Assumptions C07_create_filters.
 Print Assumptions C07_gate_implies_work.
 Print Assumptions C07_bundle_produced_validates.
@@ -532,11 +519,12 @@ Print Assumptions C07_young_pool_kept.
 Print Assumptions C07_intake_keeps_young.
 Print Assumptions C07_young_pool_nothing_left_out.
 Print Assumptions C07_pool_stays_young.
+Print Assumptions C07_issuance_refused.
 Print Assumptions C07_foreign_stake_refused.
 Print Assumptions C07_bundle_ts_declines.
 Print Assumptions C07_create_error_is_double_spend.
 Print Assumptions C07_create_failure_restores.
-Print Assumptions C07_produced_validates_refuted_issuance.
+Print Assumptions C07_issuance_regression.
 Print Assumptions C07_aged_input_regression.
 Print Assumptions C07_aged_pool_emptied_regression.
 Print Assumptions C07_leave_out_branch_by_injection.
